@@ -1,5 +1,26 @@
 TLA = "TLA+ spec + TLC model checking + trace validation of the real code (conformance)"
+FS = "FilterSync.tla / Index.tla give the transition relation of the filter pipeline (set_scripts, BlockFilters batches incl. the hash-chain check against cached / quorum filter hashes, matched-block records, blocks proof, block arrival and filter_block in number order, fork rollback, fetch bookkeeping) and the ground truth of the index derived from the world's transaction graph. "
 TEXTS = {
+ "C03": {
+  "level": FS + "Seeded random histories on generated transaction graphs (same-block chains, typed cells, scripts sharing args prefixes, different start numbers, 1-3 peers, random batch boundaries, interleaved fetch_transaction / fetch_header / set_scripts / restarts) run on the real client; after every event the raw RocksDB keyspace is projected and TLC checks the step against the specification, CellsSound / HistOnCanon / ScriptsNumberHonest / NoForgedData on the state, and Complete (live cells and history equal the ground truth) at quiescence.",
+  "ref": "DESIGN.md 4 C03", "technique": TLA,
+  "note": "RPC answer formatting is covered by C13; known findings KF-C09-rollback-number, KF-C16-txheight",
+ },
+ "C04": {
+  "level": FS + "Structured fork histories (sync on branch A fully or partly, matched blocks pending / partly downloaded, optional restart, then every peer on a heavier branch B forking 1..last-N+2 blocks below A's tip) and random ones: ForkDecision/CommitEffects must explain every tip change (fork point from the reorg section or, for rebased requests, from the returned last-N headers), CellsSound/HistOnCanon must hold in every state after the switch, Complete on branch B at quiescence, and deeper forks must leave everything untouched until the documented long-fork abort (the only Panic event the specification has).",
+  "ref": "DESIGN.md 4 C04", "technique": TLA,
+  "note": "known findings KF-C09-rollback-number, KF-C16-txheight",
+ },
+ "C09": {
+  "level": FS + "SetScripts is specified for all / partial / delete incl. empty lists, duplicates and the rewind rule; random command sequences are issued at every point of an ongoing sync (before/after filter batches, matched blocks pending or partly downloaded, restarts); every post-state must equal the specified script set / filtered number / cleared records, and ScriptsNumberHonest (history variable startOf) is evaluated on every state: no script is ever reported filtered beyond a canonical block that creates one of its cells and is not indexed.",
+  "ref": "DESIGN.md 4 C09", "technique": TLA,
+  "note": "known finding KF-C09-rollback-number",
+ },
+ "C16": {
+  "level": FS + "fetch_transaction / fetch_header / get_transaction answers are part of the logged events and must equal the status the specification computes from the fetch tables (added / fetching / not_found with re-add / fetched); FetchTick, honest SendBlocksProof / SendTransactionsProof (found, missing, newer tip), timeouts, disconnects and restarts must transform the tables as specified; NoOrphanFetch (a sent, not timed-out, not missing entry is always held by some peer's request) and FetchedTruthful (a committed answer names a stored header of the block that contains the transaction) are invariants on every logged state, across fork switches.",
+  "ref": "DESIGN.md 4 C16", "technique": TLA,
+  "note": "pending-pool status is covered by C18; known finding KF-C16-txheight",
+ },
  "C15": {
   "level": "Sampling.tla states well-formedness of GetLastStateProof over the order structure of the difficulties; PeerSync.tla applies it (SamplesOk / ReqOk incl. the rebase rule) to EVERY request the real client sends in the sync drivers, and Trace_Sampling.tla to the real build_prove_request_content(_from_genesis) called over a grid of 109 (blocks, lastN) rows x random 2^64-scale numbers and 8..250-bit difficulties, with and without a previous proof and remembered last-N headers; the number of distinct samples is compared with a table computed in exact arithmetic; the must-refuse cases must return None.",
   "ref": "DESIGN.md 4 C15", "technique": TLA,
